@@ -34,6 +34,7 @@ use crate::common::canonical_double;
 use crate::error::Error;
 use crate::hash::DEFAULT_UPDATE_SEED;
 use crate::hash::compute_seed_hash;
+use crate::hash::try_compute_seed_hash;
 use crate::theta::bit_pack::BLOCK_WIDTH;
 use crate::theta::bit_pack::BitPacker;
 use crate::theta::bit_pack::BitUnpacker;
@@ -558,7 +559,17 @@ impl CompactThetaSketch {
     }
 
     /// Deserializes a compact theta sketch from bytes using the provided expected seed.
+    ///
+    /// # Errors
+    ///
+    /// Besides malformed `bytes`, a `seed` whose 16-bit seed hash is zero is rejected: no sketch can
+    /// have been built with it.
     pub fn deserialize_with_seed(bytes: &[u8], seed: u64) -> Result<Self, Error> {
+        if try_compute_seed_hash(seed).is_none() {
+            return Err(Error::invalid_argument(format!(
+                "seed {seed} cannot be used: its seed hash is zero",
+            )));
+        }
         let mut cursor = SketchSlice::new(bytes);
         let pre_longs = cursor
             .read_u8()
@@ -993,6 +1004,11 @@ impl ThetaSketchBuilder {
 
     /// Set hash seed.
     ///
+    /// # Panics
+    ///
+    /// Panics if the 16-bit seed hash of `seed` is zero (about one seed in 65536, e.g. 50541): the
+    /// serialized form reserves a zero seed hash, so such a seed cannot be used.
+    ///
     /// # Examples
     ///
     /// ```
@@ -1000,6 +1016,10 @@ impl ThetaSketchBuilder {
     /// let _sketch = ThetaSketch::builder().seed(7).build();
     /// ```
     pub fn seed(mut self, seed: u64) -> Self {
+        assert!(
+            try_compute_seed_hash(seed).is_some(),
+            "seed {seed} cannot be used: its seed hash is zero"
+        );
         self.seed = seed;
         self
     }
